@@ -439,6 +439,12 @@ _PP_CACHE = {}
 
 
 def _pp_build(v, val, pp, ev, Raised, hooks):
+    from ..core.values import ExtRef
+    if isinstance(v, ExtRef) and v.name.startswith('pyparsing.'):
+        obj = pp
+        for part in v.name.split('.')[1:]:
+            obj = getattr(obj, part)
+        return obj
     if isinstance(v, T) and v.op == 'call' and isinstance(v.args[0], str) \
             and v.args[0].startswith('pyparsing.'):
         fn = getattr(pp, v.args[0].split('.', 1)[1])
@@ -520,11 +526,19 @@ def _end_to_end(ctx, keys):
               's== !abc', 's!= !abc', '<in> !9', '<or> !b <or> a',
               '<or> a <or> s=x', '<all-in> !x s=y', 's== s=x', 's== s!x',
               's== sx', '<in> s', '<or> s', '!abc', 's=x', '<all-in> aes aes',
+              # letters outside ASCII
+              'caf\u00e9', 's== caf\u00e9', '<or> \u00e9t\u00e9 <or> a',
+              '<in> \u00e9', '<all-in> a\u00e9s mmx',
+              # negative and decimal range limits
+              '<range-in> [ -20 -10 ]', '<range-in> ( -5 5 ]',
+              '<range-in> [ -1.5 4.5 )', '<range-in> [ 4 +6 ]',
               # white space before / after / inside
               ' >= 5', '  <or> a <or> b', ' s== abc', '\t<in> bc', '>= 5 ',
               ' <range-in> [ 1 5 ] ', '<or>  a  <or>  b', ' <all-in> aes']
     values = ('5', '5.0', '6', '4', 'abc', '17', 'a', "['aes', 'mmx']",
-              ' abc', '!abc', 'x!9y', '!b', 's=x', "['!x', 's=y']", 's')
+              ' abc', '!abc', 'x!9y', '!b', 's=x', "['!x', 's=y']", 's',
+              '-15', '-5', '4.5', '-20', 'caf\u00e9', 'caf',
+              "['a\u00e9s', 'mmx']", '\u00e9t\u00e9')
 
     if ctx.thorough:
         operands = ('-1', '0', '4', '6', '5.0', '4.99', '5.01', '1e1', 'abc',
